@@ -28,6 +28,22 @@ Proof.
 Qed.
 Print Assumptions C03_non_timeseries_pass_through.
 
+(* df_sync of something that is not a list / dict returns it unchanged; a collection without any timeseries or
+   array is returned unchanged by every entry point (df_index is None) *)
+Theorem C03_nothing_to_align o tr h m ch :
+  df_sync (Leaf o) h m ch = Leaf o /\
+  (pd_indexes (flatten tr) = [] -> arr_lens (flatten tr) = [] -> (forall x, h <> HX x) ->
+     flatten (df_reindex tr h m) = flatten tr /\ df_index (flatten tr) h = TgNone).
+Proof.
+  split; [reflexivity|]. intros Hp Ha Hh.
+  assert (E : df_index (flatten tr) h = TgNone) by (unfold df_index; rewrite Hp, Ha; reflexivity).
+  split; [|exact E]. rewrite (proj1 (df_reindex_leafwise tr h m)).
+  replace (match h with HX x => TgIdx x | _ => df_index (flatten tr) h end) with TgNone
+    by (destruct h; try (symmetry; exact E); exfalso; eapply Hh; reflexivity).
+  rewrite <- (map_id (flatten tr)) at 2. apply map_ext. intros o'. destruct o'; reflexivity.
+Qed.
+Print Assumptions C03_nothing_to_align.
+
 (* every timeseries leaf of the result carries the prescribed index *)
 Theorem C03_common_index tr h m ch P o' :
   join_index h (pd_indexes (flatten tr)) = Some P -> is_pd o' = true ->
